@@ -2198,19 +2198,22 @@ func (p *PikeVM) SearchWithSlotTableCapturesAt(haystack []byte, at int) *MatchWi
 
 	numGroups := p.nfa.CaptureCount()
 
-	if at == len(haystack) {
-		if p.matchesEmptyAt(haystack, at) {
-			return p.buildCapturesFromSlots(nil, at, at)
+	// End-of-input shortcuts report group 0 only: with sub-groups the general
+	// search must run so that groups taking part in the empty match are set.
+	if numGroups <= 1 {
+		if at == len(haystack) {
+			if p.matchesEmptyAt(haystack, at) {
+				return p.buildCapturesFromSlots(nil, at, at)
+			}
+			return nil
 		}
-		return nil
-	}
-	if len(haystack) == 0 {
-		if p.matchesEmpty() {
-			return p.buildCapturesFromSlots(nil, 0, 0)
+		if len(haystack) == 0 {
+			if p.matchesEmpty() {
+				return p.buildCapturesFromSlots(nil, 0, 0)
+			}
+			return nil
 		}
-		return nil
 	}
-	_ = numGroups
 
 	if p.nfa.IsAnchored() {
 		return p.searchWithSlotTableCapturesAnchored(haystack, at)
